@@ -162,27 +162,32 @@ func c13Keys() (ka1, ka2, kb1, kb2, e1, e2 string) {
 	return
 }
 
+var c13Target = "H"
+
 func c13Read(route int, root *yaml.Node, q string) (string, bool) {
 	doc := vDoc(root)
 	var text string
 	switch route {
 	case 0:
-		text = ".H.QKEY"
+		text = "." + c13Target + ".QKEY"
 	case 1:
-		text = "explode(.) | .H.QKEY"
+		text = "explode(.) | ." + c13Target + ".QKEY"
 	case 2:
 		// what the printer does for encoders that cannot represent aliases: explode every result, then read
 		exp := ExpressionNode{Operation: &Operation{OperationType: explodeOpType}}
 		if _, err := vEval(&exp, doc); err != nil {
 			return "", false
 		}
-		text = ".H.QKEY"
+		text = "." + c13Target + ".QKEY"
 	case 3:
 		// only the map itself is exploded (the maps it merges still carry their own anchors, aliases and merge keys)
-		text = ".H | explode(.) | .QKEY"
+		text = "." + c13Target + " | explode(.) | .QKEY"
+		if alone, err := vEval(vParse("."+c13Target+" | explode(.)"), vDoc(root)); err == nil && alone.Len() == 1 {
+			verifAssert(c13Clean(alone.Front().Value.(*CandidateNode)), "C13/explode-of-one-node-leaves-alias-merge-or-anchor target="+c13Target)
+		}
 	default:
 		// `yq -o=json .H`: the printer explodes the result node .H alone, then the value is read from it
-		hres, err := vEval(vParse(".H"), doc)
+		hres, err := vEval(vParse("."+c13Target), doc)
 		if err != nil || hres.Len() != 1 {
 			return "", false
 		}
@@ -192,6 +197,8 @@ func c13Read(route int, root *yaml.Node, q string) (string, bool) {
 			return "", false
 		}
 		doc = ctx.MatchingNodes.Front().Value.(*CandidateNode)
+		// exploded means exploded: no alias, merge key or anchor is left inside the result
+		verifAssert(c13Clean(doc), "C13/explode-of-one-node-leaves-alias-merge-or-anchor target="+c13Target)
 		text = ".QKEY"
 	}
 	e := vParse(text)
@@ -248,7 +255,29 @@ func VerifC13Resolve() {
 			label += " explicit-alias"
 		}
 	}
+	c13Target = "H"
+	if mergeKind == 4 && verifChoice("readThroughPlainAlias", 2) == 1 {
+		// S: *a — a plain alias of the map that has a merge key of its own: a's keys, then what a merges from b
+		c13Target = "S"
+		pick := func(k1, v1, k2, v2 string) (string, bool) {
+			if verifConcreteBool(verifEqStr(q, k1)) {
+				return v1, true
+			}
+			if verifConcreteBool(verifEqStr(q, k2)) {
+				return v2, true
+			}
+			return "", false
+		}
+		want, src = "", "absent"
+		if v, ok := pick(ka1, "1", ka2, "2"); ok {
+			want, src = v, "own-key-of-the-aliased-map"
+		} else if v, ok := pick(kb1, "3", kb2, "4"); ok {
+			want, src = v, "merged-into-the-aliased-map"
+		}
+		label = c13RouteNames[route] + " plain-alias-of-a-merging-map key=" + src
+	}
 	got, ok := c13Read(route, c13Build(ka1, ka2, kb1, kb2, e1, e2, mergeKind, pos), q)
+	c13Target = "H"
 	c13ExplicitAlias = false
 	c13E1Val, c13E1Tag = "5", "!!int"
 	verifAssert(ok, "C13/read-error "+label)
